@@ -133,16 +133,33 @@ inductive HOp where
   | op (o : Impl.Op)
   | cpy (i j : Nat)                 -- x[i] = x[j] / x.f_i = x.f_j  (an existing sub-view is assigned)
   | sets (i : Nat) (vs : List Val)  -- x[i:i+k] = vs
+  | setf (i : Nat) (ft : Ty) (v : Val)  -- x[i] = <a view of type ft holding v>
 
 def toHOp : Sexp → Option HOp
   | .list [.atom "cpy", i, j] => do pure (.cpy (← atomNat i) (← atomNat j))
   | .list [.atom "sets", i, .list (.atom "s" :: vs)] => do pure (.sets (← atomNat i) (← toVals vs))
+  | .list [.atom "setf", i, ft, v] => do pure (.setf (← atomNat i) (← toTy ft) (← toVal v))
   | s => (toOp s).map .op
 
 /-- the elements / fields of a sequence or container value -/
 def seqElems : Val → List Val
   | .seq vs => vs
   | _ => []
+
+/-- element / field type at position `i` of a composite type -/
+def elemTyAt (t : Ty) (i : Nat) : Option Ty :=
+  match t with
+  | .vector et _ => some et
+  | .list et _ => some et
+  | .container fs => fs[i]?
+  | _ => none
+
+/-- a typed argument (a view of type `ft`) is assignable to position `i` only when `ft` is the element type:
+    an integer view of another width, a vector / byte vector view of another length is rejected whatever it holds -/
+def typedArgOk (t : Ty) (i : Nat) (ft : Ty) : Bool :=
+  match elemTyAt t i with
+  | some et => reprStr et == reprStr ft
+  | none => false
 
 /-- expansion into model ops in the current state, and the hashing bound of the whole step -/
 def expandHOp (t : Ty) (v : Val) : HOp → Option (List Impl.Op × Nat)
@@ -166,6 +183,11 @@ def expandHOp (t : Ty) (v : Val) : HOp → Option (List Impl.Op × Nat)
   | .sets i vs =>
     let ops := vs.zipIdx.map fun (x, k) => Impl.Op.set (i + k) x
     some (ops, (ops.map (costBound t)).sum)
+  | .setf i ft x =>
+    -- a typed argument: an integer view of another width, a vector / byte vector view of another length
+    -- is rejected whatever it holds (its repr differs from the element type's); of the same type it is
+    -- the plain assignment
+    if typedArgOk t i ft then some ([.set i x], costBound t (.set i x)) else none
 
 /-- a mutation history: the spec value and the impl tree side by side; a failed op leaves both unchanged -/
 def runHist (t : Ty) (v0 : Val) (ops : List HOp) : String :=
@@ -334,7 +356,10 @@ def runTree (n : Node) (cmds : List Sexp) : Option String := do
 def runPath (t : Ty) (v : Option Val) (keys : List Key) : String :=
   let ig := Impl.pathGindex t keys
   let sg := Spec.gindex 1 (some t) keys
-  let base := [kv "i.g" (optStr toString ig), kv "s.g" (optStr toString sg)]
+  -- generalized index of every proper prefix of the path (a prefix path object that is kept and extended
+  -- again must still address what it addressed)
+  let pre := (List.range keys.length).map fun i => optStr toString (Impl.pathGindex t (keys.take (i + 1)))
+  let base := [kv "i.g" (optStr toString ig), kv "s.g" (optStr toString sg), kv "i.pre" (String.intercalate "," pre)]
   match v with
   | none => join base
   | some v =>
@@ -344,29 +369,41 @@ def runPath (t : Ty) (v : Option Val) (keys : List Key) : String :=
       | _, _ => none
     join (base ++ [kv "i.node" (rootO at_)])
 
-def toSOp : Sexp → Option (Impl.SOp ⊕ Nat)
-  | .list [.atom "child", r, k] => do pure (.inl (.child (← atomNat r) (← atomNat k)))
-  | .list [.atom "childs", r, k] => do pure (.inl (.child (← atomNat r) (← atomNat k)))
-  | .list [.atom "mut", r, op] => do pure (.inl (.mutate (← atomNat r) (← toOp op)))
-  | .list [.atom "bad", r, op] => do pure (.inl (.mutate (← atomNat r) (← toOp op)))
-  | .list [.atom "copy", r] => do pure (.inl (.copy (← atomNat r)))
-  | .list [.atom "snap", r] => do pure (.inr (← atomNat r))
+def toSOp : Sexp → Option (List Impl.SOp ⊕ (Nat ⊕ (Nat × Nat × Ty × Val)))
+  | .list [.atom "child", r, k] => do pure (.inl [.child (← atomNat r) (← atomNat k)])
+  | .list [.atom "childs", r, k] => do pure (.inl [.child (← atomNat r) (← atomNat k)])
+  | .list [.atom "childi", r, k] => do pure (.inl [.child (← atomNat r) (← atomNat k)])
+  | .list [.atom "mut", r, .list [.atom "sets", i, .list (.atom "s" :: vs)]] => do
+    -- slice assignment = the element assignments in order
+    let r ← atomNat r
+    let i ← atomNat i
+    let vs ← vs.mapM toVal
+    pure (.inl ((List.range vs.length).zip vs |>.map fun (j, v) => .mutate r (.set (i + j) v)))
+  | .list [.atom "mut", r, op] => do pure (.inl [.mutate (← atomNat r) (← toOp op)])
+  | .list [.atom "bad", r, .list [.atom "setf", i, ft, v]] => do
+    pure (.inr (.inr (← atomNat r, ← atomNat i, ← toTy ft, ← toVal v)))
+  | .list [.atom "bad", r, op] => do pure (.inl [.mutate (← atomNat r) (← toOp op)])
+  | .list [.atom "assign", r, i, _, v] => do
+    -- a held view used as the value of an assignment: the value is copied, the view stays where it was
+    pure (.inl [.mutate (← atomNat r) (.set (← atomNat i) (← toVal v))])
+  | .list [.atom "copy", r] => do pure (.inl [.copy (← atomNat r)])
+  | .list [.atom "snap", r] => do pure (.inr (.inl (← atomNat r)))
   | _ => none
 
 /-- store histories: after every op the root and encoding of every held view and of every snapshot -/
-def runStore (t : Ty) (v : Val) (ops : List (Impl.SOp ⊕ Nat)) : String :=
+def runStore (t : Ty) (v : Val) (ops : List (List Impl.SOp ⊕ (Nat ⊕ (Nat × Nat × Ty × Val)))) : String :=
   match Impl.construct H t v with
   | none => "i.ctor=err"
   | some n0 =>
     let viewStr (o : Impl.VObj) : String :=
       hexOf (o.backing.root H) ++ ":" ++ hexO ((Impl.serTree H o.ty o.backing).map (·.1))
-    let rec go (k : Nat) (s : Impl.Store) (snaps : List (Ty × Node)) (ops : List (Impl.SOp ⊕ Nat))
+    let rec go (k : Nat) (s : Impl.Store) (snaps : List (Ty × Node)) (ops : List (List Impl.SOp ⊕ (Nat ⊕ (Nat × Nat × Ty × Val))))
         (acc : List String) : List String :=
       match ops with
       | [] => acc.reverse
       | op :: rest =>
         let bound : String := match op with
-          | .inl (.mutate r o) =>
+          | .inl [.mutate r o] =>
             -- path from the chain root down to the written node: the tree depth of every enclosing view
             let rec up (fuel : Nat) (q : Nat) (acc : Nat) : Nat :=
               match fuel with
@@ -385,12 +422,22 @@ def runStore (t : Ty) (v : Val) (ops : List (Impl.SOp ⊕ Nat)) : String :=
           | _ => "-"
         let (s', snaps', status) : Impl.Store × List (Ty × Node) × String :=
           match op with
-          | .inr r =>
+          | .inr (.inl r) =>
             match s[r]? with
             | some o => (s, snaps ++ [(o.ty, o.backing)], "ok")
             | none => (s, snaps, "err")
-          | .inl sop =>
-            match Impl.step H s sop with
+          | .inr (.inr (r, i, ft, x)) =>
+            -- assignment of a typed argument
+            match s[r]? with
+            | some o =>
+              if typedArgOk o.ty i ft then
+                match Impl.step H s (.mutate r (.set i x)) with
+                | some s2 => (s2, snaps, "ok")
+                | none => (s, snaps, "err")
+              else (s, snaps, "err")
+            | none => (s, snaps, "err")
+          | .inl sops =>
+            match sops.foldlM (fun st sop => Impl.step H st sop) s with
             | some s2 => (s2, snaps, "ok")
             | none => (s, snaps, "err")
         let p := toString k
